@@ -179,6 +179,25 @@ func (e *Effects) fresh(v ssa.Value, seen map[ssa.Value]bool) bool {
 	return false
 }
 
+// directRootOf walks field/index/slice arithmetic only (no loads).
+func directRootOf(v ssa.Value) ssa.Value {
+	for i := 0; i < 32; i++ {
+		switch x := v.(type) {
+		case *ssa.FieldAddr:
+			v = x.X
+		case *ssa.IndexAddr:
+			v = x.X
+		case *ssa.Slice:
+			v = x.X
+		case *ssa.ChangeType:
+			v = x.X
+		default:
+			return v
+		}
+	}
+	return v
+}
+
 // RootOf is the value an address expression starts from.
 func RootOf(v ssa.Value) ssa.Value { return rootOf(v) }
 
@@ -214,7 +233,9 @@ func (e *Effects) rootHoldsOnlyFresh(fn *ssa.Function, root ssa.Value, seen map[
 		if !isSt || !ok {
 			return
 		}
-		if rootOf(st.Addr) != root {
+		// only stores INTO the root's own memory count (addr reaches the root through field/index
+		// arithmetic); a store through a pointer loaded out of it writes a different object
+		if directRootOf(st.Addr) != root {
 			return
 		}
 		if !pointerLike(st.Val.Type()) {
